@@ -89,6 +89,16 @@ def oracle(game, args):
     return _oracle_cache[key]
 
 
+def oracle_decimal(game, args):
+    """exact values with probability literals read as the decimals they were written as (0.1 = 1/10): the values in which
+    ties 'equal as rational numbers but reached through different floating-point sums' are exact"""
+    key = (game, repr(args), "dec")
+    if key not in _oracle_cache:
+        g = build(game, args)
+        _oracle_cache[key] = G.exact_reach(g.players, g.tl, g.finals, conv=G.dec)
+    return _oracle_cache[key]
+
+
 def solve(sp, desc, prune, budget=400):
     budget = desc.get("_budget", budget) if isinstance(desc, dict) else budget
     desc = {k: v for k, v in desc.items() if not k.startswith("_")}
@@ -259,7 +269,8 @@ def pipe_reach(sp, game, args):
             if g.players[s] == PR:
                 sp.prove(strat[s] is None, "chance state %d has a reachability strategy" % s)
                 continue
-            vals = [exact[t] for _, t in g.tl[s]]
+            dexact = oracle_decimal(game, args)
+            vals = [dexact[t] for _, t in g.tl[s]]
             ok = all(a == b or abs(a - b) > Fraction(1, 10 ** 5) for a, b in itertools.combinations(vals, 2))
             if not ok:
                 continue
